@@ -4,6 +4,7 @@ import warnings
 
 from mc.core import Res
 from mc import keys as K
+from mc import adapt as A
 from refpgp import armor as rarmor, wire
 
 NEXT = {c: rarmor.B64[(i + 1) % 64] for i, c in enumerate(rarmor.B64)}
@@ -59,7 +60,7 @@ class Prop(object):
         u.append(('objects', {}))
         u.append(('headerhist', {}))
         u.append(('wrongkind', {}))
-        for i in range(10):
+        for i in range(13):
             u.append(('corrupt', {'index': i, 'seed': seed}))
         for name in self.CORRUPT_OBJECTS:
             u.append(('corruptobj', {'obj': name}))
@@ -364,6 +365,31 @@ class Prop(object):
         beg = max(k for k, l in enumerate(lines[:end]) if l.startswith('-----BEGIN'))
         start = beg + 1 + lines[beg + 1:].index('') + 1
         only = case.get('only')
+
+        def judge(key, bad, what, tags):
+            r.states += 1
+            r.transitions += 1
+            try:
+                a = rarmor.dearmor(bad, strict_pad=False)
+                consistent = a['crc_ok'] is True
+                refdata = a['data']
+            except Exception:
+                consistent, refdata = False, None
+            try:
+                with warnings.catch_warnings(record=True) as w:
+                    warnings.simplefilter('always')
+                    o2 = self._load(cls, bad)
+                reported = any('crc' in str(x.message).lower() for x in w)
+                oc = 'warned' if reported else 'silent'
+            except Exception:
+                oc, o2 = 'raised', None
+            r.outcomes[('consistent:' if consistent else 'inconsistent:') + oc] += 1
+            if oc == 'silent' and not consistent:
+                r.viol('corruptobj', dict(tags, kind='silent', obj=name), dict(case, only=key),
+                       '%s, %s: %s.from_blob loads it without any report although payload and CRC no longer agree' % (name, what, cls.__name__))
+            elif oc == 'silent' and consistent and bytes(o2) != refdata:
+                r.viol('corruptobj', {'kind': 'decodes-differently', 'obj': name}, dict(case, only=key),
+                       '%s, %s: the loaded object exports other octets than the payload the armor carries' % (name, what))
         for li in range(start, end):
             for ci in range(len(lines[li])):
                 orig = lines[li][ci]
@@ -377,33 +403,19 @@ class Prop(object):
                     key = '%d.%d.%s' % (li, ci, sub)
                     if only and key != only:
                         continue
-                    r.states += 1
-                    r.transitions += 1
                     ml = list(lines)
                     ml[li] = lines[li][:ci] + sub + lines[li][ci + 1:]
-                    bad = '\n'.join(ml)
-                    try:
-                        a = rarmor.dearmor(bad, strict_pad=False)
-                        consistent = a['crc_ok'] is True
-                        refdata = a['data']
-                    except Exception:
-                        consistent, refdata = False, None
-                    try:
-                        with warnings.catch_warnings(record=True) as w:
-                            warnings.simplefilter('always')
-                            o2 = self._load(cls, bad)
-                        reported = any('crc' in str(x.message).lower() for x in w)
-                        oc = 'warned' if reported else 'silent'
-                    except Exception:
-                        oc, o2 = 'raised', None
-                    r.outcomes[('consistent:' if consistent else 'inconsistent:') + oc] += 1
-                    if oc == 'silent' and not consistent:
-                        r.viol('corruptobj', {'kind': 'silent', 'obj': name, 'sub': 'alphabet' if sub in rarmor.B64 else sub, 'where': 'crc-line' if li == end - 1 else 'body'},
-                               dict(case, only=key), '%s, line %d column %d %r -> %r: %s.from_blob loads it without any report although payload and CRC no longer agree'
-                               % (name, li, ci, orig, sub, cls.__name__))
-                    elif oc == 'silent' and consistent and bytes(o2) != refdata:
-                        r.viol('corruptobj', {'kind': 'decodes-differently', 'obj': name}, dict(case, only=key),
-                               '%s, line %d column %d: the loaded object exports other octets than the payload the armor carries' % (name, li, ci))
+                    judge(key, '\n'.join(ml), 'line %d column %d %r -> %r' % (li, ci, orig, sub),
+                          {'sub': 'alphabet' if sub in rarmor.B64 else sub, 'where': 'crc-line' if li == end - 1 else 'body'})
+        # the whole checksum replaced by another well-formed one - among them the values that are small numbers (=AAAA is CRC 0)
+        if lines[end - 1].startswith('='):
+            for val in ('=AAAA', '=AAAB', '=AAA/', '=////', '=AQAA', '=' + lines[end - 1][1:][::-1]):
+                key = 'crcline.' + val
+                if val == lines[end - 1] or (only and key != only):
+                    continue
+                ml = list(lines)
+                ml[end - 1] = val
+                judge(key, '\n'.join(ml), 'checksum line replaced by %s' % val, {'sub': 'crc-value', 'where': 'crc-line'})
         r.dim('object', name)
         r.samples.append({'object': name, 'lines': end - start})
         return r
@@ -423,8 +435,23 @@ class Prop(object):
                 r.outcomes['not-applicable'] += 1
                 return r
         i = case['index']
-        n = [1, 2, 3, 47, 48, 49, 95, 96, 100, 150][i]
-        data = fills(n, case.get('seed', 0))[i % 4][1]
+        if i >= 10:
+            # payloads whose CRC-24 is exactly zero (CRC line '=AAAA'; any payload followed by its own CRC has that: CRC-24 has no final inversion) and
+            # whose CRC has two leading zero octets: a checksum that is a small number is a checksum all the same
+            pre = [b'crc zero', bytes(range(97)), b'two leading zero octets'][i - 10]
+            if i < 12:
+                data = pre + rarmor.crc24(pre).to_bytes(3, 'big')
+                if rarmor.crc24(data) != 0:
+                    raise A.HarnessBinding('reference CRC-24: payload + CRC does not give CRC 0')
+            else:
+                k = 0
+                while rarmor.crc24(pre + k.to_bytes(4, 'big')) >= 0x100:
+                    k += 1
+                data = pre + k.to_bytes(4, 'big')
+            n = len(data)
+        else:
+            n = [1, 2, 3, 47, 48, 49, 95, 96, 100, 150][i]
+            data = fills(n, case.get('seed', 0))[i % 4][1]
         text = str(Blob(data))
         lines = text.split('\n')
         # body lines start after the blank line following the header line
